@@ -49,6 +49,9 @@ def main():
     tier = common.tier()
     fails = [None, [0], [4]] if tier == 'quick' else [None] + [[k] for k in range(10)]
     jobs2 = [dict(npts=(2, 2, 2), caps=(3, 2), deadline_s=500 if tier == 'quick' else 2500, first_may_fail=f is not None, fail_only_at=f) for f in fails]
+    # the same two flights with every input in a range where no refusal or corner case is possible: a counterexample
+    # found in the sign abstraction then replays on the real code whatever values the solver picked for the products
+    jobs2 += [dict(npts=(2, 2, 2), caps=(3, 2), deadline_s=500 if tier == 'quick' else 2500, first_may_fail=False, fail_only_at=None, regime='comfortable')]
     if tier != 'quick':
         jobs2 += [dict(npts=(3, 2, 2), caps=(2, 2), deadline_s=2500, first_may_fail=False, fail_only_at=None)]
     rep.bounds['legacy_builder_two_flights'] = 'flight 1 (symbolic mission and model, succeeding or refused by the model at call %s) then flight 2 (another symbolic mission/model) on the same real LegacyBuilder, compared with flight 2 on a fresh builder; 2 points per phase' % [f for f in fails]
